@@ -78,7 +78,9 @@ def gen_label(rng, dots=False):
 
 KINDS = ["StatefulSet", "StatefulSet", "ReplicaSet", "ReplicaSet", "ReplicaSet", "Deployment", "TApp", "DaemonSet",
          "Job", "CronJob", "statefulset", "STATEFULSETS", "StatefulSets", "replicaset", "REPLICASET", "deployment",
-         "Null", "NULL", "null", "dp", "sts", "Pool", "pool", "MyCRD", "GameStatefulSet", "X", "tapp", "N"]
+         "Null", "NULL", "null", "dp", "sts", "Pool", "pool", "MyCRD", "GameStatefulSet", "X", "tapp", "N",
+         # kinds that look like plurals or carry other suffixes a "normalisation" might strip
+         "Redis", "Jenkins", "Ingress", "S", "ss", "TApps", "Deployments", "ReplicaSets"]
 POOLS = [None, None, None, None, "", "p1", "my-pool", "pool", "pool-", "0", "sts", "NULL", "a.b"]
 BAD_POOLS = ["my_pool", "_", "x_", "_x", "a__b", "pool__x"]
 
